@@ -120,3 +120,43 @@ package knxnet
 //@ func (res *DescriptionRes) Unpack(data []byte) (n uint, err error)
 //@   props C01
 //@   assigns *res, res.UnknownBlocks[0:cap(res.UnknownBlocks)], res.SupportedServices.Families[0:cap(res.SupportedServices.Families)]
+
+//@ func (req *TunnelReq) Size() (size uint)
+//@   requires cemi.validMsg(req.Payload)
+
+//@ func (req *TunnelReq) Pack(buffer []byte)
+//@   requires cemi.validMsg(req.Payload)
+
+//@ func (ind *RoutingInd) Size() (size uint)
+//@   requires cemi.validMsg(ind.Payload)
+
+//@ func (ind *RoutingInd) Pack(buffer []byte)
+//@   requires cemi.validMsg(ind.Payload)
+
+//@ func (info *DeviceInformationBlock) Pack(buffer []byte)
+//@   requires len(info.HardwareAddr) == 6
+
+//@ func Size(service ServicePackable) (size uint)
+//@   inline
+
+//@ func Pack(buffer []byte, srv ServicePackable)
+//@   props C15
+//@   encoder
+//@   requires srv != nil && (typeis(srv, *TunnelReq) ==> cemi.validMsg(srv.(*TunnelReq).Payload)) && (typeis(srv, *RoutingInd) ==> cemi.validMsg(srv.(*RoutingInd).Payload))
+//@   requires typeis(srv, *DeviceInformationBlock) ==> len(srv.(*DeviceInformationBlock).HardwareAddr) == 6
+//@   requires srv.Size() <= 65529 && uint(len(buffer)) >= 6 + srv.Size()
+//@   requires sepdeep(srv, buffer)
+//@   ensures [header] buffer[0] == 6 && buffer[1] == 16
+//@   ensures [service] uint16(buffer[2])<<8 | uint16(buffer[3]) == uint16(srv.Service())
+//@   ensures [length] uint(buffer[4])<<8 | uint(buffer[5]) == srv.Size() + 6
+//@   assigns buffer[0:6+srv.Size()]
+//@   determines buffer[0:6+srv.Size()]
+
+//@ func AllocAndPack(srv ServicePackable) (buffer []byte)
+//@   props C15
+//@   requires srv != nil && (typeis(srv, *TunnelReq) ==> cemi.validMsg(srv.(*TunnelReq).Payload)) && (typeis(srv, *RoutingInd) ==> cemi.validMsg(srv.(*RoutingInd).Payload))
+//@   requires typeis(srv, *DeviceInformationBlock) ==> len(srv.(*DeviceInformationBlock).HardwareAddr) == 6
+//@   requires srv.Size() <= 65529
+//@   ensures [datagram] uint(len(buffer)) == srv.Size() + 6 && fresh(buffer)
+//@   ensures [length] uint(buffer[4])<<8 | uint(buffer[5]) == uint(len(buffer))
+//@   assigns nothing
